@@ -1630,6 +1630,11 @@ def packSpecialData(
         # that key (storing a nan when no data). This makes for a simple
         # approach that is somewhat digestible just looking at the db, and
         # should be quite efficient in the case where most objects have data for most keys.
+        if not all(isinstance(d, dict) for d in data):
+            raise TypeError(
+                "Unable to store a mixture of dictionaries and other data for "
+                "{}".format(paramName)
+            )
         attrs["dict"] = True
         keys = sorted({k for d in data for k in d})
         data = np.array([[d.get(k, np.nan) for k in keys] for d in data])
